@@ -544,6 +544,8 @@ func setup(r *mon.Run) {
 		"HTTP/1 scripts also carry connection header classes (Connection: keep-alive / close / names another field, Keep-Alive, Proxy-Connection) over a real connection and in-process: " +
 		"the back-end must see none of them and the call must end as the direct one. WebSocket front (JSON text frames, server-ended plans, all three streaming shapes): messages and replies " +
 		"compared with the direct call, the close code and reason with the same script on a locally registered handler. " +
+		"Message size classes: empty (zero bytes on the wire) and tiny messages at every position (only / first / middle / last) in both directions, crossed with compression " +
+		"(gRPC-web also with mixed per-message flags on a gzip stream). " +
 		"Each script runs twice (direct / through larking); distinct = front x shape x plan family x message count x outcome x half-close-seen x metadata class."
 	r.Floor = 40
 	r.Assume("grpc-go client/server (direct run) define the reference behaviour of a call script")
